@@ -22,6 +22,8 @@ LEAN_TARGETS = ['CpProofs.C03', 'drv_c03']
 DRIVER = 'drv_c03'
 THEOREMS = [
     'CpProofs.C03.lookup_assign',
+    'CpProofs.C03.lookup_addAll',
+    'CpProofs.C03.lookup_mergeBody',
 ]
 LEVEL = 'proof'
 TECHNIQUE = ('Lean 4 proof: round-trip of percent/plus encoding through the transcribed decoders by induction over '
@@ -52,10 +54,16 @@ CS_ENUM = {'utf-8': 'utf8', 'iso8859-1': 'latin1', 'ascii': 'ascii', 'utf-16': '
 
 
 def cs_enum(name):
-    """Python charset name -> the model's charset token."""
+    """Python charset name -> the model's charset token (`unknown` = bytes.decode raises LookupError)."""
+    try:
+        b'a'.decode(name)
+    except LookupError:
+        return 'unknown'
+    except UnicodeError:
+        pass
     try:
         return CS_ENUM[codecs.lookup(name).name]
-    except (LookupError, KeyError):
+    except KeyError:
         raise common.HarnessError('charset %r is outside the modelled set' % (name,))
 
 
@@ -225,8 +233,8 @@ def oracle_query(q, enc):
     (malformed escapes, raw bytes that are not UTF-8)."""
     m = _IMAGEMAP.match(q)
     if m:
-        if max(len(m.group(1)), len(m.group(2))) > 4000:
-            return None
+        if max(len(m.group(1)), len(m.group(2))) > 18:
+            return None                  # coordinates beyond any int64: the statement is read as silent
         return [('x', int(m.group(1))), ('y', int(m.group(2)))]
     if not wellformed(q):
         return None
@@ -250,7 +258,7 @@ def oracle_body(b, attempts):
     for cs in attempts:
         try:
             return [(k.decode(cs), v.decode(cs)) for k, v in raw]
-        except UnicodeDecodeError:
+        except (UnicodeDecodeError, LookupError):   # a charset nobody knows decodes nothing
             continue
     return REFUSED
 
@@ -281,7 +289,7 @@ def second_opinion_query(q, enc):
 def second_opinion_body(b, attempts):
     if not all(c < 0x80 for c in b):
         return None
-    if any(codecs.lookup(cs).name not in ('utf-8', 'iso8859-1', 'ascii') for cs in attempts):
+    if any(cs_enum(cs) not in ('utf8', 'latin1', 'ascii') for cs in attempts):
         return None
     text = b.decode('ascii').replace(';', '&')
     for cs in attempts:
@@ -531,8 +539,11 @@ def gen_request(rng, big=False):
             if r > 0.9:
                 scenario = 'declared+configured'     # the configured list replaces the declared charset
                 case['attempt_cfg'] = [name, 'utf-8']
-        elif body_cs in ('utf-8', 'ascii') and r < 0.7:
+        elif body_cs in ('utf-8', 'ascii') and r < 0.62:
             scenario = 'default'
+        elif body_cs in ('utf-8', 'ascii') and r < 0.7:
+            scenario = 'declared-unknown'            # LookupError counts as a failed attempt: utf-8 is next
+            case['declared'] = rng.choice(['nosuch', 'x-user-defined', 'hex', 'rot13'])
         elif r < 0.85:
             scenario = 'fallback'
             pre = rng.choice([['ascii'], ['us-ascii', 'utf-8'], ['utf-8'], []])
@@ -582,8 +593,8 @@ def gen_undecodable(rng):
         frags = poison(case.get('bfrags') or [], raw_ok=True)
         case['bfrags'] = [f.hex() for f in frags]
         case['b'] = rng.choice([b'&', b';']).join(frags).hex()
-        case['declared'] = rng.choice([None, None, 'utf-8', 'us-ascii'])
-        case['attempt_cfg'] = rng.choice([None, None, ['ascii', 'utf-8'], ['utf-8']])
+        case['declared'] = rng.choice([None, None, 'utf-8', 'us-ascii', 'nosuch'])
+        case['attempt_cfg'] = rng.choice([None, None, ['ascii', 'utf-8'], ['utf-8'], ['nosuch', 'utf-8']])
     case['scenario'] = 'undecodable-' + where
     return case
 
@@ -617,8 +628,8 @@ def gen_raw(rng):
     if rng.random() < 0.6:
         b = b''.join(rng.choice(alpha) for _ in range(rng.choice([0, 1, 2, 3, 5, 8, 12])))
         case.update(method='POST', b=b.hex(),
-                    declared=rng.choice([None, None, 'latin-1', 'utf-16', 'ascii', 'utf-16-be']),
-                    attempt_cfg=rng.choice([None, None, None, ['ascii', 'utf-8', 'latin-1'], []]))
+                    declared=rng.choice([None, None, 'latin-1', 'utf-16', 'ascii', 'utf-16-be', 'nosuch']),
+                    attempt_cfg=rng.choice([None, None, None, ['ascii', 'utf-8', 'latin-1'], [], ['base64']]))
     return case
 
 
@@ -756,8 +767,6 @@ def unit_parse_qs(text, enc='utf-8'):
         return httputil.parse_query_string(text, encoding=enc)
     except UnicodeDecodeError:
         return 'unicode'
-    except ValueError:
-        return 'value'
 
 
 def unit_urlencoded(data, attempts=('utf-8',)):
